@@ -140,14 +140,14 @@ func genHelpers(rng *rand.Rand, idx int, tier string) Case {
 		c["size"] = rng.Intn(6) - 1
 		c["n"] = rng.Intn(6) - 1
 	case "Required":
-		c["data"] = g.goValue(1)
+		c["data"] = g.maybePtr(g.goValue(1))
 	case "RequiredString":
 		c["hex"] = g.pick(hexStrings)
 	case "RequiredNumber":
 		c["x"] = []interface{}{0, 1, -1, 0.5, 1e-300}[rng.Intn(5)]
 	case "ReadOnly":
 		c["ctx"] = g.pick([]string{"request", "response", "none", "absent", "bogus"})
-		c["data"] = g.goValue(1)
+		c["data"] = g.maybePtr(g.goValue(1))
 	case "FormatOf":
 		c["format"] = g.pick([]string{"date", "email", "uuid", "unknownfmt", ""})
 		c["str"] = g.pick(strPool)
@@ -157,6 +157,19 @@ func genHelpers(rng *rand.Rand, idx int, tier string) Case {
 }
 
 type opTypeLike string
+
+// maybePtr wraps a scalar into a non-nil pointer now and then: a pointer is zero only when it is nil,
+// whatever it points to
+func (g *sgen) maybePtr(v map[string]interface{}) map[string]interface{} {
+	if !g.p(20) {
+		return v
+	}
+	switch asStr(v["t"]) {
+	case "bool", "string", "int", "int8", "int16", "int32", "int64", "uint", "uint8", "uint16", "uint32", "uint64", "float32", "float64":
+		return gv("ptr", v)
+	}
+	return v
+}
 
 // decodeGoVal builds the Go value a tagged JSON value stands for
 func decodeGoVal(m map[string]interface{}) interface{} {
@@ -182,6 +195,11 @@ func decodeGoVal(m map[string]interface{}) interface{} {
 		return map[string]interface{}(nil)
 	case "nilptr":
 		return (*int)(nil)
+	case "ptr":
+		inner := decodeGoVal(asMap(m["v"]))
+		p := reflect.New(reflect.TypeOf(inner))
+		p.Elem().Set(reflect.ValueOf(inner))
+		return p.Interface()
 	case "[]interface":
 		out := []interface{}{}
 		for _, e := range asList(m["v"]) {
